@@ -49,6 +49,10 @@ func checkC06(p *load.Program, r *kit.Report) {
 	r.Rule("RETENTION", "Clean keeps an entry whose latest activity — the delivery when delivered — is after the cut-off; removeID removes exactly one announcer", 2)
 	r.Rule("MUST-PASS", "AddTxID returns true only after stamping LastRequested (or inserting a fresh entry); GetTxRequests returns every txid it stamped (the accumulated list is returned unsliced) and appends a txid only behind Received == nil, contains(NodeIDs, nodeID) and the timeout test, after stamping; Run saves only relevant txs after ProcessTx", 5)
 
+	r.Rule("SENT-IS-FROZEN", "a message passed to sendMessage (which only queues the pointer for the sender goroutine) is not written afterwards by the function that built it: the overflow batch of a getdata starts in a fresh message", 8)
+	checkSentIsFrozen(p, r, "SENT-IS-FROZEN")
+	r.Rule("REQUEST-PROVENANCE", "the txid batch NodeManager.RequestTxs sends to a node is the result of GetTxRequests(node.id, …) for that same node in the same iteration, never a batch booked for a node tried earlier", 1)
+	checkRequestProvenance(p, r, "REQUEST-PROVENANCE")
 	txData := func(n string) *types.Var { return p.Field(R, "TxData", n) }
 	received := txData("Received")
 	lastReq := txData("LastRequested")
